@@ -1068,13 +1068,13 @@ def run(ctx) -> None:
         ctx.hyp(f'sweep/{block[0]:02x}', many, st.tuples(*[sweep_case(op) for op in block]), max_examples=ctx.pick(3, 60))
     for j, op in enumerate(sorted(REQ_RSP)):
         if j % ctx.nshards == ctx.shard:
-            ctx.hyp(f'sweep_req/{op:02x}', lambda c: run_case(ctx, c), sweep_case(op), max_examples=ctx.pick(25, 600))
+            ctx.hyp(f'sweep_req/{op:02x}', lambda c: run_case(ctx, c), sweep_case(op), max_examples=ctx.pick(25, 400))
     ctx.extra['sum_opcodes_swept'] = covered
     ctx.extra['defined_classes'] = len(att.ATT_PDU.pdu_classes)
     # 2. generated databases and operation sequences, fixed bearer
-    ctx.hyp('fixed', lambda c: run_case(ctx, c), fixed_case(), max_examples=ctx.n(850, 150000))
+    ctx.hyp('fixed', lambda c: run_case(ctx, c), fixed_case(), max_examples=ctx.n(850, 90000))
     # 3. enhanced bearers
-    ctx.hyp('eatt', lambda c: run_case(ctx, c), eatt_case(), max_examples=ctx.n(320, 50000))
+    ctx.hyp('eatt', lambda c: run_case(ctx, c), eatt_case(), max_examples=ctx.n(320, 30000))
     for label, n in (
         ('tx:request', 100), ('tx:command', 10), ('tx:confirmation', 10), ('tx:wrong_way', 10), ('tx:undefined', 50),
         ('malformed_request', 20), ('handle:zero', 10), ('handle:past_end', 10), ('handle:ffff', 10),
